@@ -465,6 +465,43 @@ fn lw(max: u128) -> u128 {
 
 type PS = ParallelSum<Field128, Mul>;
 
+/// C01 at the extremes of the configuration space: one aggregator, 128 and 254 aggregators (with and
+/// without joint randomness), 255 proofs, and measurement bounds that need the top bit of the field
+fn extremes(out: &mut Out, rng: &mut Sm, thorough: bool) {
+    let shapes: &[(u8, u8)] = if thorough { &[(1, 1), (127, 1), (128, 1), (254, 1), (2, 255), (254, 2)] } else { &[(1, 1), (128, 1), (254, 1), (2, 255)] };
+    for &(na, np) in shapes {
+        let ic = Inst::new(Count::<Field64>::new(), "count", 0, na, np, 1);
+        end_to_end(out, rng, &ic, &[true, false, true], &|r: &u64| *r == 2);
+        let ih = Inst::new(Histogram::<Field128, PS>::new(3, 2).unwrap(), "hist:3:2", 0, na, np, 3);
+        end_to_end(out, rng, &ih, &[0, 2, 2], &|r: &Vec<u128>| r[..] == [1, 0, 2]);
+        if na <= 128 || thorough {
+            let iv = Inst::new(SumVec::<Field128, PS>::new(3, 2, 2).unwrap(), &format!("svec:2:2:{}:2", lw(3)), 0, na, np, 4);
+            end_to_end(out, rng, &iv, &[vec![3, 0], vec![1, 2]], &|r: &Vec<u128>| r[..] == [4, 2]);
+        }
+    }
+    // bounds at the top of the field
+    let p64 = modulus::<Field64>() as u64;
+    for max in [1u64 << 62, (1 << 63) - 1, 1 << 63, (1 << 63) + 12345, p64 - 1] {
+        let is = Inst::new(Sum::<Field64>::new(max).unwrap(), &format!("sum:{}", bits_of(max as u128)), lw(max as u128), 2, 1, 2);
+        let ms = [max, 0, max / 2 + 1];
+        let want: u128 = ms.iter().map(|x| *x as u128).sum::<u128>() % modulus::<Field64>();
+        end_to_end(out, rng, &is, &ms, &|r: &u64| *r as u128 == want);
+    }
+    let p128 = modulus::<Field128>();
+    for max in [1u128 << 126, (1 << 127) - 1, 1 << 127, p128 - 1] {
+        let iv = Inst::new(SumVec::<Field128, PS>::new(max, 2, 7).unwrap(), &format!("svec:2:{}:{}:7", bits_of(max), lw(max)), 0, 2, 1, 4);
+        let ms = vec![vec![max, 0], vec![1, max / 3]];
+        let want = [(max + 1) % p128, max / 3];
+        end_to_end(out, rng, &iv, &ms, &|r: &Vec<u128>| r[..] == want);
+        let il = Inst::new(L1BoundSum::<Field128, PS>::new(max, 2, 5).unwrap(), &format!("l1:2:{}:{}:5", bits_of(max), lw(max)), 0, 2, 1, 0xFFFF1003);
+        let ms = vec![vec![max, 0], vec![1, max - 1]];
+        let want = [(max + 1) % p128, max - 1];
+        end_to_end(out, rng, &il, &ms, &|r: &Vec<u128>| r[..] == want);
+    }
+    let im = Inst::new(MultihotCountVec::<Field128, PS>::new(3, 3, 2).unwrap(), &format!("mhot:3:{}:{}:2", bits_of(3), lw(3)), 0, 2, 1, 5);
+    end_to_end(out, rng, &im, &[vec![true, true, true], vec![false, false, false]], &|r: &Vec<u128>| r[..] == [1, 1, 1]);
+}
+
 pub fn run(out: &mut Out, thorough: bool, seed: u64, prop: &str) {
     let mut rng = Sm::new(seed ^ 0x0301);
     let reps = if thorough { 3 } else { 1 };
@@ -558,6 +595,9 @@ pub fn run(out: &mut Out, thorough: bool, seed: u64, prop: &str) {
                 }
             }
         }
+    }
+    if prop == "C01" {
+        extremes(out, &mut rng, thorough);
     }
     match prop {
         "C17" => crate::pop::c17(out, &mut rng, thorough),
